@@ -190,7 +190,14 @@ fn gen(seed: u64, idx: u64, t: Tier) -> J {
 		family = "u0700_first";
 		let c = char::from_u32(0x700 + r.below(0x100) as u32).unwrap_or('\u{700}');
 		let tail = *r.pick(&["", ": 1\n", "\n", " = 1\n", "a: [1, 2]\n", ":\n  - x\n"]);
-		format!("{c}{tail}").into_bytes()
+		// The MessagePack trial walks this text as if it were binary; let the walk end in every
+		// kind of fixed-width read (Cyrillic D0/D1, Greek CE/CF, accents C3, CJK E4-E9 ...),
+		// complete or cut short by the end of the input.
+		let mut extra = String::new();
+		for _ in 0..r.range(0, 6) {
+			extra.push_str(*r.pick(&["\u{44f}", "\u{3b1}", "\u{e9}", "\u{65e5}", "k: ", "\n", "x", "\u{416}\u{416}", "\u{3c9}\n", "\u{1F600}"]));
+		}
+		format!("{c}{tail}{extra}").into_bytes()
 	} else if fam < 73 {
 		family = "ambiguous";
 		(*r.pick(&["[a]\n", "{}", "[]", "[a]\nb = 1\n", "a = 1\n", "a: 1\n", "[1, 2]\n", "{\"a\": 1}", "[[a]]\n", "a = \"x: y\"\n", "[a.b]\n", "---\n- 1\n", "1", "\"s\"", "null", "# c\n[a]\n", "a:\n  b = 1\n", "{a: 1}\n", "[a]\n--- = \"\u{81}\"\n", "[a]\n--- = 1\n"])).as_bytes().to_vec()
